@@ -96,6 +96,14 @@ func init() {
 			return "", err
 		}
 		out += "\ndef rhelRepositoryKey : String := " + LeanString(key) + "\n"
+		// the database-side range test: the SQL text the query builder adds for a
+		// VersionFilter matcher, and the range constructor of the insert statement
+		sqlLits, err := c03SQLFacts(repo)
+		if err != nil {
+			return "", err
+		}
+		out += "\n/-- String literals of `buildGetQuery`'s `if opts.VersionFiltering` block, and the\n    `VersionRange(...)` constructor calls of the vulnerability insert statement. -/\n"
+		out += "def dbRangeTest : List String := " + LeanStrList(sqlLits) + "\n"
 		return out + Footer("Matchers"), nil
 	}})
 }
@@ -186,4 +194,67 @@ func c03VulnerableFacts(body *ast.BlockStmt) (lits, ops []string) {
 		return true
 	})
 	return lits, ops
+}
+
+// c03SQLFacts reads the two places where the half-open range reaches SQL.
+func c03SQLFacts(repo string) ([]string, error) {
+	_, f, err := ParseFile(repo, "datastore/postgres/querybuilder.go")
+	if err != nil {
+		return nil, err
+	}
+	var lits []string
+	found := false
+	ast.Inspect(f, func(n ast.Node) bool {
+		is, ok := n.(*ast.IfStmt)
+		if !ok {
+			return true
+		}
+		se, ok := is.Cond.(*ast.SelectorExpr)
+		if !ok || se.Sel.Name != "VersionFiltering" {
+			return true
+		}
+		found = true
+		ast.Inspect(is.Body, func(m ast.Node) bool {
+			if bl, ok := m.(*ast.BasicLit); ok && (bl.Kind == token.STRING || bl.Kind == token.CHAR) {
+				if s, err := strconv.Unquote(bl.Value); err == nil {
+					lits = append(lits, s)
+				}
+			}
+			return true
+		})
+		return false
+	})
+	if !found {
+		return nil, fmt.Errorf("querybuilder.go: `if opts.VersionFiltering` not found")
+	}
+	_, g, err := ParseFile(repo, "datastore/postgres/updatevulnerabilities.go")
+	if err != nil {
+		return nil, err
+	}
+	n := 0
+	ast.Inspect(g, func(m ast.Node) bool {
+		if bl, ok := m.(*ast.BasicLit); ok && bl.Kind == token.STRING {
+			if s, err := strconv.Unquote(bl.Value); err == nil {
+				rest := s
+				for {
+					i := strings.Index(rest, "VersionRange(")
+					if i < 0 {
+						break
+					}
+					j := strings.Index(rest[i:], ")")
+					if j < 0 {
+						break
+					}
+					lits = append(lits, rest[i:i+j+1])
+					rest = rest[i+j+1:]
+					n++
+				}
+			}
+		}
+		return true
+	})
+	if n == 0 {
+		return nil, fmt.Errorf("updatevulnerabilities.go: no VersionRange(...) constructor found")
+	}
+	return lits, nil
 }
